@@ -163,6 +163,13 @@ class _Collector:
             return None  # the candidate left the family (a radius became zero / stopped being zero)
         if self._mag0 >= 1e-3 and 0 < _case_magnitude(case) < 1e-3:
             return None  # the candidate left the quantified range of magnitudes (0 or 1e-3 .. 1e5)
+        if isinstance(case, dict):
+            for k in ("A", "B", "M"):
+                m = case.get(k)
+                if isinstance(m, list) and len(m) == 6:
+                    n2 = m[0] ** 2 + m[1] ** 2 + m[2] ** 2 + m[3] ** 2
+                    if abs(m[0] * m[3] - m[1] * m[2]) <= 1e-9 * n2 or n2 == 0:
+                        return None  # the candidate left the family of invertible maps
         try:
             done, fails = _with_alarm(4.0, lambda: self.evaluate(self.mod, case))
             if not done:  # a candidate that makes the library run for seconds is simply not accepted
@@ -696,7 +703,14 @@ def _c05_affine(mod, case):
                 d = _dist(q, ex_p)
                 if d > worst[0]:
                     worst = (d, t, which, q, ex_p)
-        if worst[0] > 1e-7 * S2:
+        # the image ellipse of the product may be extremely eccentric (two maps of condition 400 give 160 000): the
+        # position along such an ellipse is recovered with an accuracy proportional to its axis ratio (as in C05)
+        try:
+            rr = (float(arcP.rx), float(arcP.ry))
+            ecc = max(rr) / min(rr) if min(rr) > 0 else 1.0
+        except Exception:
+            ecc = 1.0
+        if worst[0] > 1e-7 * S2 * max(1.0, ecc / 1e3):
             fails.append({"key": "arc-affine-composition", "prop": "C02",
                           "expected": "(arc*A)*B == arc*(A*B) == B(A(arc.point(t))) within 1e-7*%g" % S2,
                           "got": "%s off by %g at t=%g: %r vs %r" % (worst[2], worst[0], worst[1], worst[3], worst[4]),
@@ -1123,7 +1137,10 @@ def _judge_box(got, want, delta, S):
             if max(offs) - min(offs) <= 1e-6 * S and abs(offs[0] - delta) > 1e-6 * S:
                 return ("stroke-growth", "bbox()=%r grows the geometry box %r by %g on every side, expected %g" % (g, want, offs[0], delta))
         if inside > _CTOL[0] * S:
-            return ("not-containing", "bbox()=%r misses geometry by %g (oracle box %r grown by %g)" % (g, inside, want, delta))
+            # severity bucket: a miss below 1e-8 of the coordinate scale is cancellation in the extremum computation of a
+            # small curve far from the origin (known finding); anything larger is a different failure and keeps the plain key
+            cls = "not-containing" if inside > 1e-8 * S else "not-containing-below-1e-8-of-scale"
+            return (cls, "bbox()=%r misses geometry by %g (oracle box %r grown by %g)" % (g, inside, want, delta))
         return ("not-tight", "bbox()=%r is loose by %g (oracle box %r grown by %g)" % (g, outside, want, delta))
     return None
 
